@@ -90,6 +90,7 @@ impl<'a> StateMachine<'a> {
     //@ fn src/handlers/diff_header.rs StateMachine::handle_diff_header_minus_line spec=diff_header.handle_minus
     //@ fn src/handlers/diff_header.rs StateMachine::test_diff_header_file_operation_line
     //@| ensures r ==> (self.state is DiffHeader || self.source == Source::DiffUnified),  // @C04,C14:rename.and.copy.lines.are.looked.for.only.in.a.diff.header
+    //@|         r == ((self.state is DiffHeader || self.source == Source::DiffUnified) && (is_prefix("deleted file mode "@, self.line@) || is_prefix("new file mode "@, self.line@))),  // @C04,C14:new.file.and.deleted.file.lines.are.claimed.by.their.prefix
     //@ fn src/handlers/diff_header.rs StateMachine::handle_diff_header_file_operation_line spec=diff_header.handle_file_operation
     //@ fn src/handlers/diff_header_diff.rs StateMachine::test_diff_header_diff_line
     //@| ensures r == is_prefix("diff "@, self.line@),  // @C04,C10,C14:a.file.section.starts.at.a.line.that.starts.with.diff
